@@ -3,7 +3,7 @@ import Driver.Util
 import Driver.ClusterStream
 /-
 stream tree (C08)
-  in   ops=<op>,...   op ::= rt<name> | rx<name> | sc<path>:<name> | ch<path> | st<path> | po<path> | ss<path> | cr<path> | hp<path> | rh<path> | tp<path>
+  in   ops=<op>,...   op ::= rt<name> | rx<name> | ry<name> | sc<path>:<name> | ch<path> | st<path> | po<path> | ss<path> | cr<path> | hp<path> | rh<path> | tp<path>
        (a path is dot separated: r.a.b)
   impl ok | spawned=<id> | children=<ids> parent=<id|-> | done order=X:<path>:<registered>,... | HANG order=... | held | released | skip
 The order in which siblings are shut down is Go map order: the model column is compared with a
@@ -26,6 +26,8 @@ def treeId (p : Path) : String :=
 structure TreeSt where
   live : List Path := []
   pilled : List Path := []     -- nodes held inside Receive with a poison pill queued behind
+  budget : Nat := 0            -- MaxRestarts of every actor of the history (ry roots: 1)
+  crashed : List Path := []    -- actors that have used up their one restart
 
 def treeCase (inp impl : String) : CaseOut :=
   let ws := words inp
@@ -42,6 +44,14 @@ def treeCase (inp impl : String) : CaseOut :=
       if kind = "rt" then plain { st with live := st.live ++ [[arg]] } "ok" "root"
       -- rx: as rt; the user context given WithContext is already cancelled, which has no bearing on the tree
       else if kind = "rx" then plain { st with live := st.live ++ [[arg]] } "ok" "root-with-cancelled-user-context"
+      -- ry: as rt; every actor of the history has a restart budget of 1
+      else if kind = "ry" then plain { st with live := st.live ++ [[arg]], budget := 1 } "ok" "root-with-restart-budget"
+      -- the first crash of an actor within its budget: restarted, still registered, its children still its children
+      else if kind = "cr" && st.budget = 1 && st.live.contains (parsePath arg) && !st.crashed.contains (parsePath arg) then
+        let p := parsePath arg
+        let cs := sortStrs ((childrenOf st.live p).map treeId)
+        let par := if p.length ≤ 1 then "-" else treeId p.dropLast
+        plain { st with crashed := p :: st.crashed } ("restarted children=" ++ String.intercalate "+" cs ++ " parent=" ++ par) "crash-within-budget"
       else if kind = "sc" then
         match arg.splitOn ":" with
         | [ps, name] =>
@@ -77,7 +87,7 @@ def treeCase (inp impl : String) : CaseOut :=
         let p := parsePath arg
         if st.pilled.contains p then
           -- the held node handles its own pill now and goes, with its subtree
-          plain { live := stopAt st.live p, pilled := st.pilled.erase p } "released" "release"
+          plain { st with live := stopAt st.live p, pilled := st.pilled.erase p, crashed := st.crashed.filter (fun q => !(q = p || below q p)) } "released" "release"
         else plain st "skip" "skip"
       else if kind = "st" || kind = "po" || kind = "ss" || kind = "cr" || kind = "tp" then
         let p := parsePath arg
@@ -96,6 +106,7 @@ def treeCase (inp impl : String) : CaseOut :=
           | ["X", ps, reg] => some (parsePath ps, reg)
           | _ => none
         let trace : List Ev := entries.flatMap fun e => (if e.2 = "0" then [Ev.unregister e.1] else []) ++ [Ev.stopped e.1]
+        let overlap := (commaList orderS).filter (·.startsWith "O:")
         let stoppedSorted := sortStrs (entries.map (showPath ·.1))
         let canon := res ++ " stopped=" ++ String.intercalate "+" stoppedSorted
         if blocked then
@@ -109,10 +120,11 @@ def treeCase (inp impl : String) : CaseOut :=
           let model := "done stopped=" ++ String.intercalate "+" (sortStrs (sub.map showPath))
           let post := postorderOK sub [] trace
           let fail :=
+            (if !overlap.isEmpty then [s!"C02 op#{i} {op}: two Receive calls of one actor overlapped in time ({String.intercalate "," overlap}): Stopped was delivered while the actor was still inside Receive"] else []) ++
             (if res ≠ "done" then [s!"C08 op#{i} {op}: {res}"] else []) ++
             (if !post then [s!"C08 op#{i} {op}: not a post-order (a parent handled Stopped before a descendant had stopped and been unregistered): {orderS}"] else []) ++
             (if stoppedSorted ≠ sortStrs (sub.map showPath) then [s!"C08 op#{i} {op}: stopped {stoppedSorted} but the subtree is {sortStrs (sub.map showPath)}"] else [])
-          ({ st with live := stopAt st.live p }, out ++ [model], view ++ [canon], fails ++ fail,
+          ({ st with live := stopAt st.live p, crashed := st.crashed.filter (fun q => !(q = p || below q p)) }, out ++ [model], view ++ [canon], fails ++ fail,
             tags ++ [s!"stop.{kind}", s!"subtree{min sub.length 6}", s!"depth{min ((sub.map List.length).foldl max 0 - p.length) 3}"], i + 1)
       else plain st "bad-op" "bad"
     let (_, out, view, fails, tags, _) := ops.foldl stepOp ({}, [], [], [], [], 0)
@@ -127,7 +139,11 @@ def treeCase (inp impl : String) : CaseOut :=
         if fails.isEmpty then [s!"{lbl} op#{i} {ops.getD i "?"}: implementation [{view.getD i "?"}] expected [{out.getD i "?"}]"] else []
       | none => []
     let allFails := fails ++ fails2
-    let spec := if allFails.isEmpty then "ok" else "FAIL:" ++ String.intercalate " | " allFails
+    -- the properties concerned lead the verdict: C08 / C10 / C02 as labelled per failure; in a history with a restart
+    -- budget every failure is also C06's ("the actor and its children are stopped and unregistered" once the budget is spent)
+    let labels := ((allFails.flatMap fun f => ((f.splitOn " ").headD "").splitOn "+") ++
+      (if ops.any (·.startsWith "ry") then ["C06"] else [])).eraseDups
+    let spec := if allFails.isEmpty then "ok" else "FAIL:" ++ String.intercalate "+" labels ++ " " ++ String.intercalate " | " allFails
     { model := model, spec := spec, tags := tags.eraseDups, implView := implView,
       nontrivial := tags.any (·.startsWith "subtree") }
 
